@@ -352,8 +352,9 @@ class BaseConverter:
             resolve_types(cls)
         if is_union_type(cls):
             self._unstructure_func.register_func_list([(lambda t: t == cls, func)])
-        elif get_newtype_base(cls) is not None:
-            # This is a newtype, so we handle it specially.
+        elif get_newtype_base(cls) is not None or is_typeddict(cls):
+            # NewTypes and TypedDicts cannot take part in class-based dispatch
+            # (TypedDicts do not support subclass checks), so we match them exactly.
             self._unstructure_func.register_func_list([(lambda t: t is cls, func)])
         else:
             self._unstructure_func.register_cls_list([(cls, func)])
@@ -487,8 +488,9 @@ class BaseConverter:
         if is_union_type(cl):
             self._union_struct_registry[cl] = func
             self._structure_func.clear_cache()
-        elif get_newtype_base(cl) is not None:
-            # This is a newtype, so we handle it specially.
+        elif get_newtype_base(cl) is not None or is_typeddict(cl):
+            # NewTypes and TypedDicts cannot take part in class-based dispatch
+            # (TypedDicts do not support subclass checks), so we match them exactly.
             self._structure_func.register_func_list([(lambda t: t is cl, func)])
         else:
             self._structure_func.register_cls_list([(cl, func)])
